@@ -204,6 +204,14 @@ func (c *checker) perturbProof(s *sysInst) {
 			{"generic", s.generic(i)},
 			{"0", big.NewInt(0)},
 		}
+		// bits added above the value's own length (a verifier that looks at the low bits / a marker bit only, or
+		// an encoding that tolerates a prepended byte, accepts exactly these)
+		for _, up := range []uint{1, 8, 64} {
+			cands = append(cands, struct {
+				p string
+				v *big.Int
+			}{fmt.Sprintf("bit-set-%d-above-its-length", up), new(big.Int).SetBit(new(big.Int).Set(v), v.BitLen()+int(up), 1)})
+		}
 		// structured replacements: values related to v by the symmetries of the group it lives in (negation,
 		// doubling, and for scalars modulo the secp256k1 order the two cube-root-of-unity multiples that the
 		// curve endomorphism maps to a point with the same y): a verifier comparing "half" of its equation
